@@ -663,3 +663,18 @@ def dev(argv):
 if __name__ == "__main__":
     if len(sys.argv) > 1 and sys.argv[1] == "dev":
         dev(sys.argv[2:])
+
+
+def neighbour_oracle(ctx, texts, got, changed_rules=None):
+    """Document-level oracle on an arbitrary list of texts (tools/neighbour.py): every (rule[config], document, signature) on
+    which the rule alone and the documented condition disagree; all configurations of each rule."""
+    pool, _ = agreeing([("nb", t) for t in texts])
+    ts = [t for _, t in pool]
+    if not ts:
+        return
+    with mp.get_context("fork").Pool(16) as pl:
+        for rid, spec in RULES.items():
+            for cfg in spec["configs"]:
+                for t, rr, mm, mi, sp, err in compare(rid, cfg, ts, pl):
+                    if not err and (mi or sp):
+                        got.append([f"{rid}[{cfg_name(cfg)}]", t, signature(rid, mi, sp)])
